@@ -234,6 +234,145 @@ fn attacks(seed: u64) {
     }
 }
 
+type Fr = <G1 as concordium_base::curve_arithmetic::Curve>::Scalar;
+fn scalar_of_hex(h: &str) -> Option<Fr> {
+    concordium_base::common::from_bytes::<Fr, _>(&mut std::io::Cursor::new(hlib::unhex(h))).ok()
+}
+fn limbs_hex(l: [u64; 4]) -> String { format!("{:016x}{:016x}{:016x}{:016x}", l[3], l[2], l[1], l[0]) }
+const R_HEX: &str = "73eda753299d7d483339d80809a1d80553bda402fffe5bfeffffffff00000001";
+
+/// value_to_chunks / chunks_to_value on multi-limb scalars: boundary scalars x all chunk sizes, chunk lists
+/// from the encoder, masked lists of odd lengths (short last section, more than four sections: wraps mod r)
+/// and hostile lists (chunks at or above 2^size, above 2^64).
+fn vchunks(seed: u64, n: u64) {
+    use concordium_base::{curve_arithmetic::Value, elgamal::{chunks_to_value, value_to_chunks}};
+    let mut r = Rng::new(seed);
+    let fixed: Vec<String> = vec![
+        limbs_hex([0, 0, 0, 0]), limbs_hex([1, 0, 0, 0]), limbs_hex([u64::MAX, 0, 0, 0]), limbs_hex([0, 1, 0, 0]),
+        limbs_hex([u64::MAX, u64::MAX, 0, 0]), limbs_hex([0, 0, 1, 0]), limbs_hex([0, 0, 0, 1]),
+        limbs_hex([u64::MAX, u64::MAX, u64::MAX, 0]),
+        "73eda753299d7d483339d80809a1d80553bda402fffe5bfeffffffff00000000".into(), // r - 1
+        "73eda753299d7d483339d80809a1d80553bda402fffe5bfefffffffeffffffff".into(), // r - 2
+        "73eda753299d7d483339d80809a1d80553bda402fffe5bfeffffffff00000001".into(), // r itself: not a scalar
+    ];
+    let mut cases: Vec<String> = Vec::new();
+    for f in &fixed { for _ in 0..SIZES.len() { cases.push(f.clone()); } }
+    while (cases.len() as u64) < n {
+        let mut l = [0u64; 4];
+        for i in 0..4 { l[i] = match r.below(4) { 0 => 0, 1 => u64::MAX, _ => r.u64_edge() }; }
+        l[3] = match r.below(3) { 0 => 0, 1 => l[3] % 0x73eda753299d7d48, _ => 0x73eda753299d7d47 };
+        cases.push(limbs_hex(l));
+    }
+    for (i, xh) in cases.iter().enumerate() {
+        let s = SIZES[i % 7];
+        let x = match scalar_of_hex(xh) { Some(x) => x, None => { println!("{}", json!({"k":"vskip","x":xh})); continue } };
+        let res = guarded(|| value_to_chunks::<G1>(&x, size_of(s)));
+        let rj = match &res { Ok(v) => json!(v.iter().map(|c| sc_hex(c.as_ref())).collect::<Vec<_>>()), Err(_) => json!("PANIC") };
+        println!("{}", json!({"k":"vto","s":s,"x":xh,"r":rj}));
+        let per = (64 / s) as usize;
+        let msk = size_of(s).mask();
+        let xs: Vec<Value<G1>> = match r.below(5) {
+            0 | 1 => match &res { Ok(v) => v.clone(), Err(_) => vec![Value::new(x)] },
+            2 => { // masked, arbitrary length (short last section / more than 4 sections)
+                let len = match r.below(4) { 0 => r.below(3) as usize, 1 => per * 4 + 1 + r.below(per as u64 + 2) as usize, 2 => per * 4, _ => r.below((per * 6) as u64 + 1) as usize };
+                (0..len.min(300)).map(|_| Value::<G1>::from(r.u64_edge() & msk)).collect() }
+            3 => { // hostile: chunks that are u64 but not below 2^size
+                let len = r.below(per as u64 * 2 + 2) as usize;
+                (0..len.min(40)).map(|_| Value::<G1>::from(if r.below(3) == 0 { r.u64_edge() } else { r.u64_edge() & msk })).collect() }
+            _ => { // hostile: chunks above 64 bits (only limb 0 is read)
+                let len = 1 + r.below(per as u64 + 1) as usize;
+                (0..len.min(40)).map(|j| if j == 0 { Value::new(x) } else { Value::<G1>::from(r.u64_edge() & msk) }).collect() }
+        };
+        let back = guarded(|| chunks_to_value::<G1>(&xs, size_of(s)));
+        let bj = match &back { Ok(v) => json!(sc_hex(v.as_ref())), Err(_) => json!("PANIC") };
+        println!("{}", json!({"k":"vfrom","s":s,"xs":xs.iter().map(|c| sc_hex(c.as_ref())).collect::<Vec<_>>(),"r":bj}));
+    }
+}
+
+/// BabyStepGiantStep::{new, discrete_log} on small tables; values around multiples of the table size.
+fn bsgs(seed: u64, n: u64) {
+    use concordium_base::curve_arithmetic::Curve;
+    let mut r = Rng::new(seed);
+    let context = GlobalContext::<G1>::generate(String::from("verif-c12"));
+    let h = *context.encryption_in_exponent_generator();
+    for &m in [1u64, 2, 16, 65536].iter() {
+        let table = BabyStepGiantStep::new(&h, m);
+        let kmax: u64 = match m { 1 => 700, 2 => 400, 16 => 200, _ => 5 };
+        let per = if m == 65536 { n.min(14) } else { n };
+        let mut xs: Vec<u64> = vec![0, 1, m.saturating_sub(1), m, m + 1, 2 * m - 1, 2 * m, 2 * m + 1];
+        while (xs.len() as u64) < per {
+            let k = r.below(kmax + 1);
+            let x = match r.below(4) { 0 => k * m, 1 => (k * m).saturating_sub(1), 2 => k * m + 1, _ => k * m + r.below(m) };
+            xs.push(x);
+        }
+        for x in xs {
+            let v = h.mul_by_scalar(&G1::scalar_from_u64(x));
+            let res = guarded(|| table.discrete_log(&v));
+            let full = if m <= 16 { guarded(|| BabyStepGiantStep::discrete_log_full(&h, m, &v)).ok() } else { None };
+            let rj = match &res { Ok(d) => json!(d.to_string()), Err(_) => json!("PANIC") };
+            println!("{}", json!({"k":"bsgs","m":m,"x":x.to_string(),"r":rj,"full":full.map(|d| d.to_string())}));
+        }
+    }
+}
+
+/// aggregate + decrypt_amount with chunk carries: per-chunk sums 2^32-1, 2^32, 2^33-2 (needs a larger table).
+fn aggcarry(seed: u64, n: u64, log_m: u64) {
+    let mut r = Rng::new(seed);
+    let mut csprng = StdRng::seed_from_u64(seed ^ 0xa66);
+    let context = GlobalContext::<G1>::generate(String::from("verif-c12"));
+    let table = BabyStepGiantStep::new(context.encryption_in_exponent_generator(), 1 << log_m);
+    let sk = SecretKey::generate(context.elgamal_generator(), &mut csprng);
+    let pk = PublicKey::from(&sk);
+    let m32 = 0xffff_ffffu64;
+    let mut cases: Vec<(u64, u64)> = vec![
+        (m32, 0), (m32, 1), (m32, m32), (m32 - 1, 1), (1 << 31, 1 << 31),                      // low sums 2^32-1, 2^32, 2^33-2
+        (m32 | (5 << 32), 1 | (7 << 32)), (m32 | (m32 << 32), 0), (m32 | ((m32 - 1) << 32), 1), // carry into a full high chunk
+        ((1 << 63) | m32, (1 << 62) | m32),
+        (u64::MAX, 1), (u64::MAX, u64::MAX), ((1 << 63), (1 << 63)), ((m32 << 32), (1 << 32)),   // total >= 2^64
+    ];
+    while (cases.len() as u64) < n {
+        let lo_a = match r.below(3) { 0 => m32, 1 => m32 - r.below(3), _ => r.next() & m32 };
+        let lo_b = match r.below(3) { 0 => m32, 1 => r.below(3), _ => r.next() & m32 };
+        let hi_a = match r.below(3) { 0 => r.below(1000), 1 => m32 - r.below(1000), _ => r.next() & m32 };
+        let hi_b = match r.below(3) { 0 => r.below(1000), 1 => r.below(3), _ => m32 - hi_a.min(m32) };
+        cases.push((lo_a | (hi_a << 32), lo_b | (hi_b << 32)));
+    }
+    for (a, b) in cases {
+        let (ea, _) = et::encrypt_amount(&context, &pk, Amount::from_micro_ccd(a), &mut csprng);
+        let (eb, _) = et::encrypt_amount(&context, &pk, Amount::from_micro_ccd(b), &mut csprng);
+        let agg = et::aggregate(&ea, &eb);
+        let lo = sk.decrypt_exponent(&agg.encryptions[0], &table);
+        let hi = sk.decrypt_exponent(&agg.encryptions[1], &table);
+        let dec = guarded(|| et::decrypt_amount(&table, &sk, &agg).micro_ccd());
+        let dj = match &dec { Ok(d) => json!(d.to_string()), Err(_) => json!("PANIC") };
+        println!("{}", json!({"k":"aggcarry","a":a.to_string(),"b":b.to_string(),"lo":lo.to_string(),"hi":hi.to_string(),"dec":dj}));
+    }
+}
+
+/// Wiring of the statement built by the real gen_enc_trans_proof_info: for every field of the EncTrans
+/// statement, the index of the input point it is equal to (inputs are distinct random points).
+fn wiring(seed: u64) {
+    use concordium_base::{curve_arithmetic::Curve, elgamal::Cipher, encrypted_transfers::proofs::gen_enc_trans_proof_info};
+    let mut csprng = StdRng::seed_from_u64(seed ^ 0x31);
+    for (na, ns) in [(2usize, 2usize), (1, 2), (0, 0), (3, 1)] {
+        let mut pts: Vec<G1> = Vec::new();
+        let mut fresh = |pts: &mut Vec<G1>| { let p = G1::generate(&mut csprng); pts.push(p); p };
+        // token order: 1 g, 2 h, 3 pk_s, 4 pk_r, 5 S.0, 6 S.1, then A[i].0, A[i].1, then S'[i].0, S'[i].1
+        let g = fresh(&mut pts); let h = fresh(&mut pts); let pks = fresh(&mut pts); let pkr = fresh(&mut pts);
+        let s = Cipher(fresh(&mut pts), fresh(&mut pts));
+        let a: Vec<Cipher<G1>> = (0..na).map(|_| Cipher(fresh(&mut pts), fresh(&mut pts))).collect();
+        let sp: Vec<Cipher<G1>> = (0..ns).map(|_| Cipher(fresh(&mut pts), fresh(&mut pts))).collect();
+        let pk_sender = PublicKey { generator: g, key: pks };
+        let pk_receiver = PublicKey { generator: g, key: pkr };
+        let st = gen_enc_trans_proof_info(&pk_sender, &pk_receiver, &s, &a, &sp, &h);
+        let tok = |p: &G1| -> i64 { pts.iter().position(|q| q == p).map(|i| i as i64 + 1).unwrap_or(-1) };
+        let ce = |c: &concordium_base::sigma_protocols::com_eq::ComEq<G1, G1>| vec![tok(&c.commitment.0), tok(&c.y), tok(&c.cmm_key.g), tok(&c.cmm_key.h), tok(&c.g)];
+        println!("{}", json!({"k":"wiring","na":na,"ns":ns,
+            "head":[tok(&st.dlog.public), tok(&st.dlog.coeff), tok(&st.elg_dec.public), tok(&st.elg_dec.coeff[0]), tok(&st.elg_dec.coeff[1])],
+            "e1": st.encexp1.iter().map(ce).collect::<Vec<_>>(), "e2": st.encexp2.iter().map(ce).collect::<Vec<_>>()}));
+    }
+}
+
 fn sc_hex(x: &<G1 as concordium_base::curve_arithmetic::Curve>::Scalar) -> String { hlib::hex(&ser(x)) }
 
 /// Encryption cases for the in-the-exponent correspondence: prints secret key, amounts,
@@ -288,5 +427,7 @@ fn main() {
     let a: Vec<String> = std::env::args().collect();
     let seed: u64 = a[2].parse().unwrap();
     let n: u64 = a[3].parse().unwrap();
-    match a[1].as_str() { "chunks" => chunks(seed, n), "oracle" => oracle(seed, n), "encgen" => encgen(seed, n), "attack" => attacks(seed), _ => panic!("mode") }
+    match a[1].as_str() { "chunks" => chunks(seed, n), "oracle" => oracle(seed, n), "encgen" => encgen(seed, n), "attack" => attacks(seed),
+        "vchunks" => vchunks(seed, n), "bsgs" => bsgs(seed, n), "wiring" => wiring(seed),
+        "aggcarry" => aggcarry(seed, n, a.get(4).and_then(|x| x.parse().ok()).unwrap_or(18)), _ => panic!("mode") }
 }
